@@ -37,15 +37,22 @@ def gtextN(s: str) -> str:
 # character classes over all code points
 
 
-def char_classes():
+def char_classes(core=None):
     import re
     sp = re.compile(r"\s")
     spaces = [c for c in range(0x110000) if sp.fullmatch(chr(c))]
     breaks = [c for c in range(0x110000) if len(("a" + chr(c) + "b").splitlines()) == 2]
-    return spaces, breaks
+    if core is None:
+        return spaces, breaks
+    # the characters at which the REAL core.split_lines breaks a line, over all code points; and CPython's own
+    # universal-newline reader (what the tokenizer is fed) as the reference
+    eols = [c for c in range(0x110000) if len(core.split_lines("a" + chr(c) + "b")) == 2]
+    ref = [c for c in range(0x110000)
+           if len(list(iter(io.StringIO("a" + chr(c) + "b", newline="").readline, ""))) == 2]
+    return spaces, breaks, eols, ref
 
 
-def write_class_file(p: Path, spaces, breaks):
+def write_class_file(p: Path, spaces, breaks, eols=(10, 13), ref=(10, 13)):
     probes_s = sorted(set(spaces) | {c + d for c in spaces for d in (-1, 1) if 0 <= c + d < 0x110000}
                       | {0, 35, 58, 65, 127, 128, 0x3000, 0x10FFFF})
     probes_b = sorted(set(breaks) | {c + d for c in breaks for d in (-1, 1) if 0 <= c + d < 0x110000} | {0, 31, 32})
@@ -57,11 +64,15 @@ def write_class_file(p: Path, spaces, breaks):
         f"Definition impl_breaks : list N := {glist(breaks)}.\n"
         f"Definition sp : list (N * bool) := {glist([f'({c}, {gbool(c in ss)})' for c in probes_s])}.\n"
         f"Definition bp : list (N * bool) := {glist([f'({c}, {gbool(c in bs)})' for c in probes_b])}.\n"
+        f"Definition impl_eols : list N := {glist(eols)}.\n"
+        f"Definition ref_eols : list N := {glist(ref)}.\n"
         "Definition sub (a b : list N) := forallb (fun c => existsb (N.eqb c) b) a.\n"
         "Eval vm_compute in (bad_idx (fun p => Bool.eqb (is_space (fst p)) (snd p)) sp ++ "
         "bad_idx (fun p => Bool.eqb (is_break (fst p)) (snd p)) bp ++ "
         "(if sub space_points impl_spaces && sub impl_spaces space_points && sub break_points impl_breaks "
-        "&& sub impl_breaks break_points then [] else [999999%nat])).\n")
+        "&& sub impl_breaks break_points && forallb is_eol impl_eols && forallb is_eol ref_eols "
+        "&& sub [10; 13] impl_eols && sub [10; 13] ref_eols && Nat.eqb (length impl_eols) 2 && Nat.eqb (length ref_eols) 2 "
+        "then [] else [999999%nat])).\n")
 
 
 # ------------------------------------------------------------------------------------------------
@@ -106,13 +117,31 @@ def random_head(rnd):
                 rnd.choice(POST))
 
 
+# markers inside string literals, separators inside the annotated line, untokenizable text (hunt C10-2/4, C14-10)
+EXTRA_SOURCES = [
+    "s = '# pyrefact: ignore'; x = 1\nprint(x)\n",
+    's = """\n# pyrefact: ignore"""; f()\n',
+    "x = 1 \x0c # pyrefact: ignore\n",
+    "x = 1\x0c# pyrefact: ignore\nprint(x)\n",
+    "x = 1; s = '\u2028'  # pyrefact: ignore\n",
+    'x = """a\n# pyrefact: ignore\n"""  # pyrefact: ignore\ny = 2\n',
+    "x = (\n# pyrefact: ignore\n",
+    "x = 1  # pyrefact: ignore",
+    "x = 1  # pyrefact: ignore\r\ny = 2\r\n",
+    "x = 1\ry = 2  # pyrefact: ignore\rz = 3",
+    "s = '#pyrefact:ignore'  #pyrefact:ignore\n",
+    '"""# pyrefact: skip_file"""\n',
+]
+
+
 def multi_line(rnd):
     n = rnd.randint(1, 5)
     out = []
     for i in range(n):
         body = rnd.choice(["a = 1", "b", "", "  c()", "d  # pyrefact: ignore", "e #pyrefact:skip_file",
                            "f # pyrefact : ignore", "# pyrefact: ignor", "g # pyrefact: IGNORE", "#",
-                           "h  #\tpyrefact\xa0:\u2003ignore  "])
+                           "h  #\tpyrefact\xa0:\u2003ignore  ", "s = '# pyrefact: ignore'",
+                           "t = 'a\u2028b'  # pyrefact: ignore", 'u = """', "# x\x0c# pyrefact: ignore"])
         out.append(body + rnd.choice(TERMS if i < n - 1 else TERMS + [""] * 4))
     return "".join(out)
 
@@ -137,7 +166,7 @@ def ranges_for(src: str, rnd, exhaustive: bool):
 
 def impl_case(mods, src: str, ranges, with_skip: bool):
     core = mods["core"]
-    lines = src.splitlines(keepends=True)
+    lines = core.split_lines(src)
     verdicts, pos = [], 0
     for ln in lines:
         verdicts.append(bool(core.has_ignore_comment(src, core.Range(pos, pos + len(ln)))))
@@ -154,8 +183,28 @@ def impl_case(mods, src: str, ranges, with_skip: bool):
     return lines, verdicts, skip, rr
 
 
+def tokenizer_verdict(src: str):
+    """the model's `coms` input: zero-based physical line numbers with a COMMENT token matching the documented
+    regex, by CPython's tokenizer; None if it raises (computed by the harness, not taken from pyrefact)"""
+    try:
+        return sorted({ln for ln, text in comment_tokens(src) if IGNORE_DOC_RE.search(text)})
+    except (tokenize.TokenError, SyntaxError, ValueError):
+        return None
+
+
+def reference_lines(src: str):
+    """physical lines as CPython's universal-newline reader hands them to the tokenizer"""
+    return list(iter(io.StringIO(src, newline="").readline, ""))
+
+
+def g_coms(coms) -> str:
+    return common.gopt(coms, lambda cs: glist([f"{c}%nat" for c in cs]))
+
+
 def g_case(src, lines, verdicts, skip, rr) -> str:
-    return (f"(mkIgn {gtextN(src)} {glist(lines, gtextN)} {glist(verdicts, gbool)} {gbool(skip)} "
+    skip_g = "(skip_search src)" if skip is None else gbool(skip)
+    return (f"(let src := {gtextN(src)} in mkIgn src {g_coms(tokenizer_verdict(src))} {glist(lines, gtextN)} "
+            f"{glist(src.splitlines(keepends=True), gtextN)} {glist(verdicts, gbool)} {skip_g} "
             f"{glist([f'(({gz(s)}, {gz(e)})%Z, {gbool(v)})' for ((s, e), v) in rr])})")
 
 
@@ -610,10 +659,10 @@ def check(run: common.Run):
     DIRECT_EDIT_SITES = direct_edit_sites(mods)
 
     # ---- character classes
-    spaces, breaks = char_classes()
+    spaces, breaks, eols, ref_eols = char_classes(mods["core"])
     files, shards = [], []
     p = wd / "classes.v"
-    write_class_file(p, spaces, breaks)
+    write_class_file(p, spaces, breaks, eols, ref_eols)
     files.append(p); shards.append("classes")
 
     # ---- recogniser cases
@@ -625,6 +674,8 @@ def check(run: common.Run):
     for h in heads:
         src = h + TAIL
         cases.append((src, ranges_for(src, rnd, False)[:12], True))
+    for src in EXTRA_SOURCES:
+        cases.append((src, ranges_for(src, rnd, True), False))
     nml = 600 if run.tier == "quick" else 6000
     for _ in range(nml):
         src = multi_line(rnd)
@@ -646,6 +697,8 @@ def check(run: common.Run):
         hist["ignored_lines=%d" % sum(verdicts)] += 1
         if any(verdicts):
             distinct.add(src)
+    line_structure_fail = [{"source": it[0], "core.split_lines": it[1], "reference": reference_lines(it[0])}
+                           for it in items if it[1] is not None and it[1] != reference_lines(it[0])]
     bad_impl = [it for it in items if it[1] is None or isinstance(it[3], tuple)]
     good = [it for it in items if it[1] is not None and not isinstance(it[3], tuple)]
     SH = 300
@@ -654,12 +707,7 @@ def check(run: common.Run):
         p = wd / f"ign_{k // SH}.v"
         lines_v = []
         for (s, l, v, sk, rr) in shard:
-            if sk is None:
-                lines_v.append(f"(let src := {gtextN(s)} in mkIgn src {glist(l, gtextN)} {glist(v, gbool)} "
-                               f"(skip_search src) "
-                               f"{glist([f'(({gz(a)}, {gz(b)})%Z, {gbool(x)})' for ((a, b), x) in rr])})")
-            else:
-                lines_v.append(g_case(s, l, v, sk, rr))
+            lines_v.append(g_case(s, l, v, sk, rr))
         p.write_text("From Coq Require Import List ZArith NArith Bool.\nImport ListNotations.\n"
                      "Require Import Pyrefact.Base Pyrefact.SchedModel Pyrefact.IgnoreModel.\n"
                      "Definition cases : list ign_case := [\n " + ";\n ".join(lines_v) + "\n].\n"
@@ -787,10 +835,14 @@ def check(run: common.Run):
     for c in skip_fail[:3]:
         run.violation({"kind": "property-oracle", "site": "main.format_code", **c,
                        "explanation": "skip_file comment not honoured"}, True)
+    for c in line_structure_fail[:3]:
+        run.violation({"kind": "property-oracle", "site": "core.split_lines", **c,
+                       "explanation": "core.split_lines does not split the source into the physical lines that CPython's "
+                                      "universal-newline reader feeds the tokenizer"}, True)
     for e in ep_fail[:3]:
         run.violation({"kind": "property-oracle", "site": "main.main/format_file", **e,
                        "explanation": "a skip_file source is not handed back byte-for-byte by the file/stdin entry point"}, True)
-    if not (sweep_fail or skip_fail or ep_fail):
+    if not (sweep_fail or skip_fail or ep_fail or line_structure_fail):
         for d in disagreements[:5]:
             run.violation(dict(d, kernel="IgnoreModel (has_ignore_comment / skip_file / splitlines / \\s)",
                                explanation="model and implementation disagree; the property oracles (annotated-line "
